@@ -11,18 +11,18 @@ import (
 // C09 - maintenance freezes automation; leaving re-learns the real master.
 type orC09 struct {
 	baseOracle
-	exists   bool
-	mode     string // full | light
-	acked    bool
-	leaving  bool
-	ackT     time.Duration
-	ackSeq   uint64
-	lightAckT time.Duration
-	attempts map[string]int // per incarnation: leave attempts seen with several masters
-	aware    map[string]bool // hosts whose daemon has read the acknowledged record (and so wrote its maintenance file)
+	exists         bool
+	mode           string // full | light
+	acked          bool
+	leaving        bool
+	ackT           time.Duration
+	ackSeq         uint64
+	lightAckT      time.Duration
+	attempts       map[string]int      // per incarnation: leave attempts seen with several masters
+	aware          map[string]bool     // hosts whose daemon has read the acknowledged record (and so wrote its maintenance file)
 	mastersAtEnter map[string][]string // per incarnation: alive masters when its current Maintenance iteration began
-	noMgrSince time.Duration // light maintenance: since when nobody holds the manager lock (-1: somebody does)
-	served   map[string]bool // hosts whose daemon received (reply delivered) a read of the acknowledged record
+	noMgrSince     time.Duration       // light maintenance: since when nobody holds the manager lock (-1: somebody does)
+	served         map[string]bool     // hosts whose daemon received (reply delivered) a read of the acknowledged record
 }
 
 // onZKReply: the reply of a successful read reached the client
